@@ -25,7 +25,7 @@ ASSUMPTIONS = [
 ]
 
 DEFAULT = {"http": 80, "https": 443, "ws": 80, "wss": 443}
-SERVERS = [("h", "d"), ("h", 8000), ("example.org", "d"), ("10.0.0.1", "d"), ("10.0.0.1", 81), ("::1", "d"), ("::1", 8000), ("2001:db8::7", 8443)]
+SERVERS = [("h", "d"), ("h", 8000), ("h", 80), ("h", 443), ("svc.internal", 443), ("svc.internal", 80), ("example.org", "d"), ("10.0.0.1", "d"), ("10.0.0.1", 81), ("::1", "d"), ("::1", 8000), ("2001:db8::7", 8443)]
 HOSTS = [None, "example.com", "example.com:80", "example.com:8080", "[::1]", "[::1]:8000", "EXAMPLE.com", "a.b:443"]
 ROOTS = ["", "/r", "/r/é"]
 PATHS = ["/", "/a", "/a/b", "/é", "/a b", "/a;b", "/a:b@c", "/~x", "", "/a//b", "//x", "/%41", "/a&b=c", "/a+b", "/中/文", "/a'(b)*!$,"]
@@ -52,7 +52,7 @@ def expected_netloc(scheme, server, host):
         h = server[0]
         if ":" in h:
             h = f"[{h}]"
-        hp = h if server[1] == "d" else f"{h}:{server[1]}"
+        hp = h if (server[1] == "d" or server[1] == DEFAULT[scheme]) else f"{h}:{server[1]}"  # default ports are elided
     s = urlsplit("x://" + hp)
     return s.hostname, s.port
 
@@ -83,7 +83,7 @@ def check_request_url(ctx, scheme, server, host, root, path, query, odd=False):
             if host is not None:
                 nl = host
             else:
-                nl = (f"[{server[0]}]" if ":" in server[0] else server[0]) + ("" if server[1] == "d" else f":{server[1]}")
+                nl = (f"[{server[0]}]" if ":" in server[0] else server[0]) + ("" if server[1] in ("d", DEFAULT[scheme]) else f":{server[1]}")
             ps = urlsplit(f"{scheme}://{nl}{root}{path}" + (f"?{query}" if query else ""))
             pasted = {"scheme": ps.scheme, "hostname": ps.hostname, "port": ps.port, "path": ps.path, "query": ps.query}
             if odd and got != pasted:
@@ -191,6 +191,8 @@ def check_query_helpers(ctx, rng):
     from baize.datastructures import URL
     keys = ["a", "b", "c", "k k", "é"]
     pairs = [(rng.choice(keys), rng.choice(["1", "2", "", "x y", "&", "="])) for _ in range(rng.randrange(0, 6))]
+    if rng.random() < 0.3:  # a key with three or more values, other keys in between and after
+        pairs = [("a", "1"), ("a", "2"), ("b", "x"), ("a", "3"), ("c", "y")][:rng.randrange(3, 6)] + pairs[:2]
     from urllib.parse import urlencode
     base = URL("http://u:pw@h:81/p" + ("?" + urlencode(pairs) if pairs else "") + "#f")
     ctx.mon("query-helpers")
@@ -236,7 +238,9 @@ def check_query_helpers(ctx, rng):
 def run(ctx):
     rng = ctx.rng("c18")
     idx = 0
-    for scheme, server, host, root in itertools.product(DEFAULT, SERVERS, HOSTS, ROOTS):
+    combos = list(itertools.product(DEFAULT, SERVERS, HOSTS, ROOTS))
+    rng.shuffle(combos)  # a process-wide cache must not depend on which scheme saw a server address first
+    for scheme, server, host, root in combos:
         idx += 1
         if not ctx.mine(idx):
             continue
